@@ -927,8 +927,9 @@ func (rl *Shell) viRubout() {
 			break
 		}
 
+		// We delete backwards: keep the killed text in buffer order.
 		rl.cursor.Dec()
-		cut = append(cut, rl.cursor.Char())
+		cut = append([]rune{rl.cursor.Char()}, cut...)
 		rl.line.CutRune(rl.cursor.Pos())
 	}
 
